@@ -296,6 +296,23 @@ func (g *FnGen) intrinsic(s *State, com *ssa.CallCommon, res ssa.Value) bool {
 		enc, _ := g.c.codecFuns(et)
 		g.vals[res] = &Val{term: app(enc, v)}
 		return true
+	case "UnmarshalBinaryBare":
+		// may fail; on success *ptr = dec_T(bz)
+		pt := ifaceOperandType(com.Args[1])
+		if pt == nil {
+			panic(genErr("codec unmarshal into statically unknown type"))
+		}
+		et := pt.Underlying().(*types.Pointer).Elem()
+		ptr := app("i-val", g.term(s, com.Args[1]))
+		_, dec := g.c.codecFuns(et)
+		g.checkFrame(s, ptr, et)
+		errv := g.fresh("r_unmarshalErr", "Iface")
+		cur := g.bind("curv", g.c.reg.sortOf(et), g.load(s, ptr, et))
+		v := g.bind("decv", g.c.reg.sortOf(et), ite(eq(errv, "niliface"), app(dec, g.term(s, com.Args[0])), cur))
+		g.assume(s, g.typeInv(s, v, et, 0))
+		g.storeTo(s, ptr, et, v)
+		g.vals[res] = &Val{term: errv}
+		return true
 	case "MustUnmarshalBinaryBare":
 		pt := ifaceOperandType(com.Args[1])
 		if pt == nil {
